@@ -207,17 +207,16 @@ theorem argMaxAgg_pairs (grp : List (Int × Rat)) :
 /-- **range functions over unwrapped values**: the value column of `UnwrapFunctionPlanner`'s select over the rows of
     one (series, bucket) group is the range function of the direct reading on that group's (timestamp, value) pairs -/
 theorem range_fn_unwrap (o : Oracles) (env : Env) (rows : List Row) (first : Row) (grp : List (Int × Rat))
-    (fn : UnwrapFn) (d : Nat) (h : UnwrapRows rows grp) (hne : grp ≠ []) (hms : 1000000 ∣ d) (hd : 0 < d)
-    (hfn : fn ≠ .stdvarOT ∧ fn ≠ .stddevOT) :
-    evalAgg o env rows first (.col (unwrapValue fn (secLit d)) "value") = ((unwrapVal fn d grp).map Val.rat).getD .null := by
+    (fn : UnwrapFn) (d : Nat) (h : UnwrapRows rows grp) (hne : grp ≠ []) (hms : 1000000 ∣ d) (hd : 0 < d) :
+    evalAgg o env rows first (.col (unwrapValue fn (secLit d)) "value") = ((unwrapVal o fn d grp).map Val.rat).getD .null := by
   obtain ⟨p, ps, rfl⟩ : ∃ p ps, grp = p :: ps := by
     cases grp with
     | nil => exact absurd rfl hne
     | cons p ps => exact ⟨p, ps, rfl⟩
   cases fn <;>
     simp [unwrapValue, unwrapVal, evalAgg, aggCall, evalAgg_secLit, h.vals o env, h.pairs o env, sumAgg, avgAgg, minAgg, maxAgg,
-      ratsOf_cons_rat, ratsOf_map_rat, divVal, Val.toRat?, secOfMs_eq_secondsOf d hms, secondsOf_ne_zero d hd,
-      ratSum, ratSumL] at hfn ⊢
+      varPopAgg, stddevPopAgg, ratsOf_cons_rat, ratsOf_map_rat, divVal, Val.toRat?, secOfMs_eq_secondsOf d hms,
+      secondsOf_ne_zero d hd, ratSum, ratSumL]
   · exact argMinAgg_pairs (p :: ps)
   · exact argMaxAgg_pairs (p :: ps)
 
@@ -380,16 +379,16 @@ theorem AggRows.length {rows vs} (h : AggRows rows vs) : rows.length = vs.length
 /-- **vector aggregation**: the value column of `AggOpPlanner`'s select over the rows of one group, read as a number,
     is the aggregate of the direct reading over the values of that group -/
 theorem vector_agg_value (o : Oracles) (env : Env) (rows : List Row) (first : Row) (vs : List Rat) (fn : AggFn)
-    (h : AggRows rows vs) (hne : vs ≠ []) (hfn : fn ≠ .stddev ∧ fn ≠ .stdvar) :
-    (evalAgg o env rows first (.col (aggValue fn) "value")).toRat? = aggVal fn vs := by
+    (h : AggRows rows vs) (hne : vs ≠ []) :
+    (evalAgg o env rows first (.col (aggValue fn) "value")).toRat? = aggVal o fn vs := by
   obtain ⟨v, rest, rfl⟩ : ∃ v rest, vs = v :: rest := by
     cases vs with
     | nil => exact absurd rfl hne
     | cons v rest => exact ⟨v, rest, rfl⟩
   have hl := h.length
   cases fn <;>
-    simp [aggValue, aggVal, evalAgg, aggCall, h.vals o env, sumAgg, avgAgg, minAgg, maxAgg, ratsOf_cons_rat,
-      ratsOf_map_rat (f := fun v : Rat => v), Val.toRat?, ratSum, ratSumL, hl] at hfn ⊢
+    simp [aggValue, aggVal, evalAgg, aggCall, h.vals o env, sumAgg, avgAgg, minAgg, maxAgg, varPopAgg, stddevPopAgg,
+      ratsOf_cons_rat, ratsOf_map_rat (f := fun v : Rat => v), Val.toRat?, ratSum, ratSumL, hl]
 
 
 /-! ### comparison -/
